@@ -26,7 +26,7 @@ StateActs == [KEY_F1 |-> "octave_down", KEY_F2 |-> "octave_up",
 
 Restrict(f, S) == [x \in S |-> f[x]]
 
-BaseCfg == [ mode |-> Mode, exit |-> <<>>, vel |-> 64, dOct |-> 0, dSemi |-> 0, dChan |-> 0, dMap |-> 1,
+BaseCfg == [ mode |-> Mode, exit |-> <<>>, vel |-> 101, dOct |-> 0, dSemi |-> 0, dChan |-> 0, dMap |-> 1,
              actions |-> <<>>, maps |-> <<>>, axinfo |-> <<>> ]
 
 -----------------------------------------------------------------------------
@@ -34,7 +34,7 @@ KeysCfg ==
   [BaseCfg EXCEPT
      !.actions = Restrict(StateActs, {"KEY_F1", "KEY_F2", "KEY_F5", "KEY_F6", "KEY_F11", "KEY_F12"}
                                      \cup (IF SemiB > 0 THEN {"KEY_F3", "KEY_F4"} ELSE {}))
-                 @@ [KEY_ESC |-> "panic"],
+                 @@ [KEY_ESC |-> "panic", KEY_F9 |-> "cc_learning", KEY_F10 |-> "multinote"],
      !.maps = << [name |-> "M1", axes |-> <<>>,
                   keys |-> [KEY_A |-> [n |-> 60, o |-> 0], KEY_S |-> [n |-> 60, o |-> 0], KEY_D |-> [n |-> 48, o |-> 1]]],
                  [name |-> "M2", axes |-> <<>>,
